@@ -246,4 +246,133 @@ theorem exceptHandler_typed_as (f sc : Nat) (c s0 a av st : Node) (t : Tok) (ss 
   simp [errType, hst, ha, hac, hat, tokOf, bindErrThen, child]
   cases e <;> rfl
 
+/-! ### loops -/
+
+theorem eval_loop (f sc : Nat) (n : Node) (h : n.name = "loop") : eval (f+1) sc n = evalLoop f sc n := by
+  rw [eval]; simp [h]
+
+/-- **eval_guardloop_is_guardLoop**: a condition loop is `guardLoop` over the evaluations of its guard and
+    its block in the loop's child scope, with a fresh instance-state map -/
+theorem evalLoop_is_guardLoop (f sc : Nat) (n g body : Node) (hc : n.children = [some g, some body])
+    (hg : g.name = "guard") :
+    evalLoop (f+1) sc n = (do
+      let ls ← newChild sc (← scopeName n)
+      withFreshIs (guardLoop (eval f ls g) (eval f ls body) f)) := by
+  rw [evalLoop]; simp [hc, child, hg]
+
+theorem eval_guardloop_is_guardLoop (f sc : Nat) (n g body : Node) (h : n.name = "loop")
+    (hc : n.children = [some g, some body]) (hg : g.name = "guard") :
+    eval (f+2) sc n = (do
+      let ls ← newChild sc (← scopeName n)
+      withFreshIs (guardLoop (eval f ls g) (eval f ls body) f)) := by
+  rw [eval_loop _ _ _ h, evalLoop_is_guardLoop f sc n g body hc hg]
+
+/-- getIterator: what the loop iterates over, from the value (or iterator signal) of the expression -/
+def loopStart (f ls : Nat) (it : Node) : M IterSt := do
+  match ← attemptE (eval f ls it) with
+  | .error (Sig.iter _ _) => pure IterSt.reeval
+  | .error e => if e.isBreak then pure (IterSt.single Val.null true) else throw e
+  | .ok v =>
+    match v with
+    | .list r l => pure (IterSt.list r l 0)
+    | .map r => do
+      let kvs ← getMap r
+      let keyed ← kvs.mapM fun (k, _) => do pure (← sprint k, k)
+      let sorted := sortBy (fun a b => bytesLt a.1 b.1) keyed
+      if evalLoop.dup sorted then throw (Sig.unsupported "map keys with equal string forms: iteration order unspecified")
+      pure (IterSt.map r (sorted.map (·.2)))
+    | v => pure (IterSt.single v false)
+
+/-- **eval_iterloop_is_iterLoop** (one loop variable): a `for v in e` loop is `iterLoop` with the iterator
+    `iterNext` started by `loopStart`, the binder `bindLoopVars` and the evaluation of the block -/
+theorem evalLoop_is_iterLoop (f sc : Nat) (n c0 iv it body : Node) (t : Tok)
+    (hc : n.children = [some c0, some body]) (h0 : c0.name = "in") (h0c : c0.children = [some iv, some it])
+    (hiv : iv.name = "identifier") (hivc : iv.children = []) (hivt : iv.tok = some t) :
+    evalLoop (f+1) sc n = (do
+      let ls ← newChild sc (← scopeName n)
+      withFreshIs (do
+        let start ← loopStart f ls it
+        iterLoop (iterNext f ls n it) (bindLoopVars ls n [t.val]) (eval f ls body) f start)) := by
+  rw [evalLoop]; simp [hc, child, h0, h0c, hiv, hivc, hivt, tokOf, loopStart]
+  rfl
+
+theorem eval_iterloop_is_iterLoop (f sc : Nat) (n c0 iv it body : Node) (t : Tok) (h : n.name = "loop")
+    (hc : n.children = [some c0, some body]) (h0 : c0.name = "in") (h0c : c0.children = [some iv, some it])
+    (hiv : iv.name = "identifier") (hivc : iv.children = []) (hivt : iv.tok = some t) :
+    eval (f+2) sc n = (do
+      let ls ← newChild sc (← scopeName n)
+      withFreshIs (do
+        let start ← loopStart f ls it
+        iterLoop (iterNext f ls n it) (bindLoopVars ls n [t.val]) (eval f ls body) f start)) := by
+  rw [eval_loop _ _ _ h, evalLoop_is_iterLoop f sc n c0 iv it body t hc h0 h0c hiv hivc hivt]
+
+/-- the iterator over a list: the slice header was captured at loop start; elements are read live -/
+theorem iterNext_list (f ls : Nat) (n it : Node) (r l i : Nat) :
+    iterNext (f+1) ls n it (.list r l i) =
+      (if i ≥ l then throw (rtErr tBreak n) else do pure ((← getBacking r).getD i Val.null, IterSt.list r l (i + 1))) := by
+  rw [iterNext]
+
+/-- the iterator over a map: the keys (sorted at loop start) in order, as `[key, value]` pairs -/
+theorem iterNext_map_cons (f ls : Nat) (n it : Node) (r : Nat) (k : Val) (ks : List Val) :
+    iterNext (f+1) ls n it (.map r (k :: ks)) = (do
+      let v := (mapLookup (← getMap r) k).getD Val.null
+      pure (← newListExact [k, v], IterSt.map r ks)) := by
+  rw [iterNext]
+theorem iterNext_map_nil (f ls : Nat) (n it : Node) (r : Nat) :
+    iterNext (f+1) ls n it (.map r []) = throw (rtErr tBreak n) := by
+  rw [iterNext]
+
+/-- a single value: exactly one step -/
+theorem iterNext_single (f ls : Nat) (n it : Node) (v : Val) (done : Bool) :
+    iterNext (f+1) ls n it (.single v done) =
+      (if done then throw (rtErr tBreak n) else pure (v, IterSt.single v true)) := by
+  rw [iterNext]
+
+/-- an iterator function (range): the expression is evaluated again for every step; the value travels
+    with the iterator signal -/
+theorem iterNext_reeval (f ls : Nat) (n it : Node) :
+    iterNext (f+1) ls n it .reeval = (do
+      match ← attemptE (eval f ls it) with
+      | .ok v => pure (v, IterSt.reeval)
+      | .error (Sig.iter _ cur) => pure (.num cur, IterSt.reeval)
+      | .error e => throw e) := by
+  rw [iterNext]; rfl
+
+/-- the end of iteration the iterators raise is a break signal of the loop, not a continue signal -/
+theorem loop_end_is_break (n : Node) : (rtErr tBreak n).isBreak = true ∧ (rtErr tBreak n).isContinue = false := by
+  unfold rtErr; cases n.tok <;> simp [Sig.isBreak, Sig.isContinue, tBreak, tContinue]
+
+/-! ### calls and raise -/
+
+/-- **eval_call_is_callCore**: running a declared function is `callCore` of the evaluation of its body in
+    the frame `buildFrame` made (fresh root scope, `this`/`super`, parameters, then the link to the
+    declaration scope), with a fresh instance-state map -/
+theorem runFunction_is_callCore (f callerSc id : Nat) (args : List Val) :
+    runFunction (f+1) callerSc id args = (do
+      let fr ← (match (← get).funcs[id]? with
+        | some fr => pure fr
+        | none => throw (Sig.unsupported "dangling function id"))
+      let c0 ← child fr.decl 0
+      let off := if c0.name == "identifier" then 1 else 0
+      let params := (← child fr.decl off).children
+      let body ← child fr.decl (off + 1)
+      let fvs ← buildFrame (fun d => eval f callerSc d) fr params args
+      callCore (withFreshIs (eval f fvs body))) := by
+  rw [runFunction]; rfl
+
+/-- **eval_raise_is_raiseSig**: the builtin `raise` throws `raiseSig` with the text of its first argument
+    as type, of its second as detail, its third as data, positioned at the call -/
+theorem runBuiltin_raise_is_raiseSig (f sc : Nat) (node : Node) (t : Tok) (args : List Val) (ht : node.tok = some t) :
+    runBuiltin (f+1) sc node "raise" args = (do
+      let ty ← (match args with
+        | [] => pure "Runtime error"
+        | a :: _ => do pure (bytesToString (← sprint a)))
+      let detail ← (match args with
+        | _ :: .null :: _ => pure []
+        | _ :: d :: _ => sprint d
+        | _ => pure [])
+      throw (raiseSig ty detail (args.getD 2 Val.null) t.line t.col)) := by
+  rw [runBuiltin.eq_def]; simp [ht]
+  rfl
+
 end Ecal.Ev
